@@ -30,7 +30,12 @@ class Spec:
 class Stream:
     """One correspondence stream: cases run by harness mode `mode` and by Gallina function `runner`."""
     def __init__(self, name, mode, imports, runner, gen, oracle=None, nontrivial=None, as_limit_gb=None,
-                 shard=400, rust_shards=1, scope="N_scope", canon=None, reference=False):
+                 shard=400, rust_shards=1, scope="N_scope", canon=None, reference=False,
+                 canon_case=None, post=None, post_runner=None):
+        # canon_case(case, line): canonicalisation that needs the case (e.g. keys -> ranks)
+        # post(case, raw_impl_line) -> list of Gallina terms (or None entries) handed to post_runner, a verified checker
+        # evaluated inside Coq on what the implementation produced; every answer must be "ok"
+        self.canon_case, self.post, self.post_runner = canon_case, post, post_runner
         # reference=True: the Gallina side is the specification the property is stated against (RefDB), so
         # an answer that differs from it is itself an input on which the implementation breaks the property
         self.reference = reference
@@ -136,7 +141,7 @@ def run_property(spec, tier, seed):
         kinds = {}
         for i, c in enumerate(cases):
             kinds[c.kind] = kinds.get(c.kind, 0) + 1
-            il = st.canon(impl[i]) if st.canon else impl[i]
+            il = st.canon(impl[i]) if st.canon else (st.canon_case(c, impl[i]) if st.canon_case else impl[i])
             c.meta["impl"] = il            # known_class may look at what the implementation answered
             c.meta["impl_raw"] = impl[i]
             ml = None if model is None else (st.canon(model[i]) if st.canon else model[i])
@@ -150,6 +155,24 @@ def run_property(spec, tier, seed):
                 stats["validated"] += 1
                 if il != ml:
                     disagreements.append((st, c, il, ml))
+        if st.post and model_ok:
+            terms, owners = [], []
+            for i, c in enumerate(cases):
+                for j, t in enumerate(st.post(c, impl[i]) or []):
+                    if t is None:
+                        oracle_fail.append((st, c, c.meta.get("impl", ""), None, "dump %d is not a finite tree the checker can read" % j))
+                    else:
+                        terms.append(t); owners.append((c, j))
+            if terms:
+                try:
+                    verdicts = core.run_model_cases(st.imports, st.post_runner, terms, "%s_%s_post" % (pid, st.name), shard=st.shard * 4, scope=st.scope)
+                    for (c, j), v in zip(owners, verdicts):
+                        if v != "ok":
+                            oracle_fail.append((st, c, c.meta.get("impl", ""), None, "verified checker %s rejects dump %d: %s" % (st.post_runner, j, v)))
+                    stats["post_checked"] = stats.get("post_checked", 0) + len(terms)
+                except Exception as e:
+                    log("checker evaluation error: %s" % e)
+                    broken.append("checker evaluation (%s): %s" % (st.name, str(e)[:300]))
         stats["evaluations"] += len(cases)
         stats["streams"][st.name] = {"cases": len(cases), "kinds": kinds}
         for c in cases[:2] + cases[-1:]:
@@ -243,7 +266,7 @@ def run_property(spec, tier, seed):
                 continue
             searched += len(cases)
             for c, raw in zip(cases, impl):
-                il = st.canon(raw) if st.canon else raw
+                il = st.canon(raw) if st.canon else (st.canon_case(c, raw) if st.canon_case else raw)
                 c.meta["impl"], c.meta["impl_raw"] = il, raw
                 why = st.oracle(c, il)
                 at = why[1] if isinstance(why, tuple) else None
@@ -312,6 +335,8 @@ def match_expect(out, exp):
         return out.startswith(exp["prefix"])
     if isinstance(exp, dict) and "contains" in exp:
         return exp["contains"] in out
+    if isinstance(exp, dict) and "not_contains" in exp:
+        return all(x not in out for x in ([exp["not_contains"]] if isinstance(exp["not_contains"], str) else exp["not_contains"]))
     return out == exp
 
 
